@@ -23,7 +23,7 @@ Definition ckind_code (k : ckind) : nat :=
   end%nat.
 Definition ckind_eqb (a b : ckind) : bool := Nat.eqb (ckind_code a) (ckind_code b).
 
-Inductive fault := FNone | FErrBefore | FErrAfter | FLease | FCrash.
+Inductive fault := FNone | FErrBefore | FErrAfter | FLease | FCrash | FStale.   (* FStale: a Lookup is answered by a lagging replica *)
 Definition plan := list (ckind * nat * fault).
 Fixpoint plan_at (p : plan) (k : ckind) (occ : nat) : fault :=
   match p with
@@ -164,34 +164,37 @@ Record world := mkWorld {
   w_roles : list (eunit * Z);           (* role holder: instance *)
   w_procs : list (procid * pstate);
   w_ctrs : list (Z * counter);          (* error counters per instance *)
-  w_att : list (Z * N * nat)            (* invocations per (function code, run) *)
+  w_att : list (Z * N * nat);           (* invocations per (function code, run) *)
+  w_lost : list procid                  (* processes whose lease was revoked while they were parked and that have not noticed yet *)
 }.
 
-Definition w0 : world := mkWorld [] [] [] 1%N 1%N [] [] [] 1 0 [] [] [] [].
+Definition w0 : world := mkWorld [] [] [] 1%N 1%N [] [] [] 1 0 [] [] [] [] [].
 
 (* record-field setters (one per field that changes) *)
 Definition set_recs (w : world) (recs : list record) (hist : list record) (ob : list oentry) (noid : N) : world :=
-  mkWorld recs hist ob noid (w_nrun w) (w_log w) (w_cur w) (w_timers w) (w_ntid w) (w_now w) (w_roles w) (w_procs w) (w_ctrs w) (w_att w).
+  mkWorld recs hist ob noid (w_nrun w) (w_log w) (w_cur w) (w_timers w) (w_ntid w) (w_now w) (w_roles w) (w_procs w) (w_ctrs w) (w_att w) (w_lost w).
 Definition set_outbox (w : world) (ob : list oentry) : world :=
-  mkWorld (w_recs w) (w_hist w) ob (w_noid w) (w_nrun w) (w_log w) (w_cur w) (w_timers w) (w_ntid w) (w_now w) (w_roles w) (w_procs w) (w_ctrs w) (w_att w).
+  mkWorld (w_recs w) (w_hist w) ob (w_noid w) (w_nrun w) (w_log w) (w_cur w) (w_timers w) (w_ntid w) (w_now w) (w_roles w) (w_procs w) (w_ctrs w) (w_att w) (w_lost w).
 Definition set_nrun (w : world) (n : N) : world :=
-  mkWorld (w_recs w) (w_hist w) (w_outbox w) (w_noid w) n (w_log w) (w_cur w) (w_timers w) (w_ntid w) (w_now w) (w_roles w) (w_procs w) (w_ctrs w) (w_att w).
+  mkWorld (w_recs w) (w_hist w) (w_outbox w) (w_noid w) n (w_log w) (w_cur w) (w_timers w) (w_ntid w) (w_now w) (w_roles w) (w_procs w) (w_ctrs w) (w_att w) (w_lost w).
 Definition set_log (w : world) (l : list event) : world :=
-  mkWorld (w_recs w) (w_hist w) (w_outbox w) (w_noid w) (w_nrun w) l (w_cur w) (w_timers w) (w_ntid w) (w_now w) (w_roles w) (w_procs w) (w_ctrs w) (w_att w).
+  mkWorld (w_recs w) (w_hist w) (w_outbox w) (w_noid w) (w_nrun w) l (w_cur w) (w_timers w) (w_ntid w) (w_now w) (w_roles w) (w_procs w) (w_ctrs w) (w_att w) (w_lost w).
 Definition set_cur (w : world) (c : list (eunit * nat)) : world :=
-  mkWorld (w_recs w) (w_hist w) (w_outbox w) (w_noid w) (w_nrun w) (w_log w) c (w_timers w) (w_ntid w) (w_now w) (w_roles w) (w_procs w) (w_ctrs w) (w_att w).
+  mkWorld (w_recs w) (w_hist w) (w_outbox w) (w_noid w) (w_nrun w) (w_log w) c (w_timers w) (w_ntid w) (w_now w) (w_roles w) (w_procs w) (w_ctrs w) (w_att w) (w_lost w).
 Definition set_timers (w : world) (t : list trec) (n : Z) : world :=
-  mkWorld (w_recs w) (w_hist w) (w_outbox w) (w_noid w) (w_nrun w) (w_log w) (w_cur w) t n (w_now w) (w_roles w) (w_procs w) (w_ctrs w) (w_att w).
+  mkWorld (w_recs w) (w_hist w) (w_outbox w) (w_noid w) (w_nrun w) (w_log w) (w_cur w) t n (w_now w) (w_roles w) (w_procs w) (w_ctrs w) (w_att w) (w_lost w).
 Definition set_now (w : world) (t : Z) : world :=
-  mkWorld (w_recs w) (w_hist w) (w_outbox w) (w_noid w) (w_nrun w) (w_log w) (w_cur w) (w_timers w) (w_ntid w) t (w_roles w) (w_procs w) (w_ctrs w) (w_att w).
+  mkWorld (w_recs w) (w_hist w) (w_outbox w) (w_noid w) (w_nrun w) (w_log w) (w_cur w) (w_timers w) (w_ntid w) t (w_roles w) (w_procs w) (w_ctrs w) (w_att w) (w_lost w).
 Definition set_roles (w : world) (r : list (eunit * Z)) : world :=
-  mkWorld (w_recs w) (w_hist w) (w_outbox w) (w_noid w) (w_nrun w) (w_log w) (w_cur w) (w_timers w) (w_ntid w) (w_now w) r (w_procs w) (w_ctrs w) (w_att w).
+  mkWorld (w_recs w) (w_hist w) (w_outbox w) (w_noid w) (w_nrun w) (w_log w) (w_cur w) (w_timers w) (w_ntid w) (w_now w) r (w_procs w) (w_ctrs w) (w_att w) (w_lost w).
 Definition set_procs (w : world) (p : list (procid * pstate)) : world :=
-  mkWorld (w_recs w) (w_hist w) (w_outbox w) (w_noid w) (w_nrun w) (w_log w) (w_cur w) (w_timers w) (w_ntid w) (w_now w) (w_roles w) p (w_ctrs w) (w_att w).
+  mkWorld (w_recs w) (w_hist w) (w_outbox w) (w_noid w) (w_nrun w) (w_log w) (w_cur w) (w_timers w) (w_ntid w) (w_now w) (w_roles w) p (w_ctrs w) (w_att w) (w_lost w).
 Definition set_ctrs (w : world) (c : list (Z * counter)) : world :=
-  mkWorld (w_recs w) (w_hist w) (w_outbox w) (w_noid w) (w_nrun w) (w_log w) (w_cur w) (w_timers w) (w_ntid w) (w_now w) (w_roles w) (w_procs w) c (w_att w).
+  mkWorld (w_recs w) (w_hist w) (w_outbox w) (w_noid w) (w_nrun w) (w_log w) (w_cur w) (w_timers w) (w_ntid w) (w_now w) (w_roles w) (w_procs w) c (w_att w) (w_lost w).
+Definition set_lost (w : world) (l : list procid) : world :=
+  mkWorld (w_recs w) (w_hist w) (w_outbox w) (w_noid w) (w_nrun w) (w_log w) (w_cur w) (w_timers w) (w_ntid w) (w_now w) (w_roles w) (w_procs w) (w_ctrs w) (w_att w) l.
 Definition set_att (w : world) (a : list (Z * N * nat)) : world :=
-  mkWorld (w_recs w) (w_hist w) (w_outbox w) (w_noid w) (w_nrun w) (w_log w) (w_cur w) (w_timers w) (w_ntid w) (w_now w) (w_roles w) (w_procs w) (w_ctrs w) a.
+  mkWorld (w_recs w) (w_hist w) (w_outbox w) (w_noid w) (w_nrun w) (w_log w) (w_cur w) (w_timers w) (w_ntid w) (w_now w) (w_roles w) (w_procs w) (w_ctrs w) a (w_lost w).
 
 (* ---------- reference adapters (the contracts of store.go / eventstreamer.go) on the world ---------- *)
 Definition lookup_run (w : world) (run : N) : option record := find_first (fun r => N.eqb (r_run r) run) (w_recs w).
@@ -260,7 +263,7 @@ Definition next_fault (k : ckind) : M fault := fun s =>
 
 (* outcome of consulting the fault plan for one call:
    DoOk = perform, return ok; DoErrAfter = perform, return error; DoErr = no effect, error; DoCancel = no effect, context.Canceled *)
-Inductive disp := DoOk | DoErrAfter | DoErr | DoCancel.
+Inductive disp := DoOk | DoErrAfter | DoErr | DoCancel | DoStale.   (* DoStale: perform, return ok, but a Lookup answers with the previous committed version *)
 
 (* [ctx] = the call takes the lease context (fails once the lease is lost); calls without context (Ack, Close) still
    fail without effect once the instance is dead *)
@@ -275,22 +278,30 @@ Definition dispatch (k : ckind) (ctx : bool) : M disp := fun s =>
          | FErrAfter => (Ok DoErrAfter, s1)
          | FLease => (Ok DoCancel, mkOst (o_w s1) (o_plan s1) (o_counts s1) (o_trace s1) false (o_dead s1))
          | FCrash => (Ok DoCancel, mkOst (o_w s1) (o_plan s1) (o_counts s1) (o_trace s1) false true)
+         | FStale => (Ok (if ckind_eqb k KLK then DoStale else DoOk), s1)
          end
   | (Err e, s1) => (Err e, s1)
   end.
 
-Definition disp_res (d : disp) : ares := match d with DoOk => ROk | DoErrAfter => RErrAfter | DoErr => RErr | DoCancel => RCancel end.
-Definition disp_effect (d : disp) : bool := match d with DoOk | DoErrAfter => true | _ => false end.
+Definition disp_res (d : disp) : ares := match d with DoOk | DoStale => ROk | DoErrAfter => RErrAfter | DoErr => RErr | DoCancel => RCancel end.
+Definition disp_effect (d : disp) : bool := match d with DoOk | DoErrAfter | DoStale => true | _ => false end.
 Definition disp_ret {A} (d : disp) (a : A) : M A :=
-  match d with DoOk => ret a | DoErrAfter | DoErr => fail EGen | DoCancel => fail ECancel end.
+  match d with DoOk | DoStale => ret a | DoErrAfter | DoErr => fail EGen | DoCancel => fail ECancel end.
 
 (* ---------- primitives ---------- *)
+(* what a lagging replica answers: the previous committed version of the run when there is one, else the current one *)
+Definition stale_run (w : world) (run : N) : option record :=
+  match rev (filter (fun r => N.eqb (r_run r) run) (w_hist w)) with
+  | _ :: p :: _ => Some p
+  | _ => lookup_run w run
+  end.
+
 Definition p_lookup (run : N) : M (option record) :=
   d <- dispatch KLK true ;; w <- get_w ;;
   match d with
-  | DoOk | DoErrAfter =>
-    let r := lookup_run w run in
-    emit (TLookup KLK (Z.of_N run) (match d, r with DoOk, Some _ => ROk | DoOk, None => RNotFound | _, _ => RErr end) (match d with DoOk => r | _ => None end)) ;;;
+  | DoOk | DoErrAfter | DoStale =>
+    let r := match d with DoStale => stale_run w run | _ => lookup_run w run end in
+    emit (TLookup KLK (Z.of_N run) (match d, r with (DoOk | DoStale), Some _ => ROk | (DoOk | DoStale), None => RNotFound | _, _ => RErr end) (match d with DoOk | DoStale => r | _ => None end)) ;;;
     disp_ret d r
   | _ => emit (TLookup KLK (Z.of_N run) (disp_res d) None) ;;; disp_ret d None
   end.
